@@ -109,6 +109,104 @@ theorem appendNext_some {P α κ} (pr : Params P α κ) (tipF : Nat) (tip : P) (
     have := (mem_candidates frP frU a b).1 hm
     exact ⟨this.1, this.2, hs⟩
 
+theorem argmaxFirst_best {P α} (gt : α → α → Bool)
+    (asymm : ∀ a b, gt a b = true → gt b a = false)
+    (ntrans : ∀ a b c, gt a b = false → gt b c = false → gt a c = false) :
+    ∀ (l : List (Nat × P × Option α)) (best : Option (Nat × P × α)) (j : Nat) (p : P) (s : α),
+      argmaxFirst gt l best = some (j, p, s) →
+      (∀ b, best = some b → gt b.2.2 s = false) ∧ (∀ x ∈ l, ∀ s', x.2.2 = some s' → gt s' s = false) := by
+  have irrefl : ∀ a, gt a a = false := by
+    intro a
+    cases h : gt a a with
+    | false => rfl
+    | true => have := asymm a a h; rw [h] at this; cases this
+  intro l
+  induction l with
+  | nil =>
+    intro best j p s h
+    simp only [argmaxFirst] at h
+    refine ⟨?_, by simp⟩
+    intro b hb
+    rw [h] at hb; cases hb
+    exact irrefl s
+  | cons x xs ih =>
+    intro best j p s h
+    obtain ⟨xj, xp, xsc⟩ := x
+    cases xsc with
+    | none =>
+      simp only [argmaxFirst] at h
+      obtain ⟨h1, h2⟩ := ih best j p s h
+      refine ⟨h1, ?_⟩
+      intro y hy s' hs'
+      rcases List.mem_cons.1 hy with rfl | hy
+      · cases hs'
+      · exact h2 y hy s' hs'
+    | some sc =>
+      cases best with
+      | none =>
+        simp only [argmaxFirst] at h
+        obtain ⟨h1, h2⟩ := ih _ j p s h
+        refine ⟨(by intro b hb; cases hb), ?_⟩
+        intro y hy s' hs'
+        rcases List.mem_cons.1 hy with rfl | hy
+        · cases hs'; exact h1 _ rfl
+        · exact h2 y hy s' hs'
+      | some b =>
+        obtain ⟨bj, bp, bs⟩ := b
+        simp only [argmaxFirst] at h
+        split at h
+        · rename_i hg
+          obtain ⟨h1, h2⟩ := ih _ j p s h
+          have e1 : gt sc s = false := h1 _ rfl
+          refine ⟨?_, ?_⟩
+          · intro b hb; cases hb
+            exact ntrans _ _ _ (asymm _ _ hg) e1
+          · intro y hy s' hs'
+            rcases List.mem_cons.1 hy with rfl | hy
+            · cases hs'; exact e1
+            · exact h2 y hy s' hs'
+        · rename_i hg
+          obtain ⟨h1, h2⟩ := ih _ j p s h
+          have e1 : gt bs s = false := h1 _ rfl
+          refine ⟨?_, ?_⟩
+          · intro b hb; cases hb; exact e1
+          · intro y hy s' hs'
+            rcases List.mem_cons.1 hy with rfl | hy
+            · cases hs'
+              exact ntrans _ _ _ (by simpa using hg) e1
+            · exact h2 y hy s' hs'
+
+theorem argmaxFirst_none {P α} (gt : α → α → Bool) :
+    ∀ (l : List (Nat × P × Option α)) (best : Option (Nat × P × α)),
+      argmaxFirst gt l best = none → best = none ∧ ∀ x ∈ l, x.2.2 = none := by
+  intro l
+  induction l with
+  | nil => intro best h; simp only [argmaxFirst] at h; exact ⟨h, by simp⟩
+  | cons x xs ih =>
+    intro best h
+    obtain ⟨xj, xp, xsc⟩ := x
+    cases xsc with
+    | none =>
+      simp only [argmaxFirst] at h
+      obtain ⟨h1, h2⟩ := ih best h
+      refine ⟨h1, ?_⟩
+      intro y hy
+      rcases List.mem_cons.1 hy with rfl | hy
+      · rfl
+      · exact h2 y hy
+    | some sc =>
+      cases best with
+      | none =>
+        simp only [argmaxFirst] at h
+        have := (ih _ h).1
+        cases this
+      | some b =>
+        obtain ⟨bj, bp, bs⟩ := b
+        simp only [argmaxFirst] at h
+        split at h
+        · have := (ih _ h).1; cases this
+        · have := (ih _ h).1; cases this
+
 /-! ### extend_line -/
 
 /-- what the linker guarantees about two consecutive points `a` (earlier), `b` (later) of a track -/
@@ -445,6 +543,154 @@ theorem link_spec {P α κ} (pr : Params P α κ) (peaks : List (List P)) :
   · intro t ht
     exact r2 t (List.mem_reverse.1 ht)
 
+/-! ### the order in which tracks are started -/
+
+/-- `a` may legitimately be returned before `b`: it starts on an earlier line, or on the same line with
+    a key (`-amplitude`) that is not larger -/
+def StartsBefore {P α κ} (pr : Params P α κ) (peaks : List (List P)) (a b : Node) : Prop :=
+  a.1 < b.1 ∨ (a.1 = b.1 ∧ ∃ p q, peakAt peaks a = some p ∧ peakAt peaks b = some q ∧
+    pr.kle (pr.key p true) (pr.key q true) = true)
+
+def TrackBefore {P α κ} (pr : Params P α κ) (peaks : List (List P)) (t1 t2 : List Node) : Prop :=
+  ∃ a b, t1.head? = some a ∧ t2.head? = some b ∧ StartsBefore pr peaks a b
+
+/-- the keys `argsort` saw for two peaks of frame `fi`, computed from the flags `un` at the start of the frame -/
+def Kle {P α κ} (pr : Params P α κ) (peaks : List (List P)) (un : List (List Bool)) (fi j1 j2 : Nat) : Prop :=
+  ∀ p q, peakAt peaks (fi, j1) = some p → peakAt peaks (fi, j2) = some q →
+    pr.kle (pr.key p (isUn un fi j1)) (pr.key q (isUn un fi j2)) = true
+
+theorem argsort_pairwise {κ} (kle : κ → κ → Bool)
+    (trans : ∀ a b c, kle a b = true → kle b c = true → kle a c = true)
+    (total : ∀ a b, kle a b = true ∨ kle b a = true) (keys : List κ) :
+    (argsort kle keys).Pairwise
+      (fun j1 j2 => ∀ k1 k2, keys[j1]? = some k1 → keys[j2]? = some k2 → kle k1 k2 = true) := by
+  unfold argsort
+  rw [List.pairwise_map]
+  have hs := isort_pairwise (fun (a b : κ × Nat) => kle a.1 b.1)
+    (fun a b c => trans a.1 b.1 c.1) (fun a b => total a.1 b.1) keys.zipIdx
+  refine hs.imp_of_mem ?_
+  intro a b ha hb hab k1 k2 h1 h2
+  have ha' := List.mem_zipIdx_iff_getElem?.1 ((isort_perm _ _).mem_iff.1 ha)
+  have hb' := List.mem_zipIdx_iff_getElem?.1 ((isort_perm _ _).mem_iff.1 hb)
+  rw [ha'] at h1; rw [hb'] at h2
+  cases h1; cases h2
+  exact hab
+
+theorem startOrder_pairwise {P α κ} (pr : Params P α κ) (peaks : List (List P)) (un : List (List Bool)) (fi : Nat)
+    (trans : ∀ a b c, pr.kle a b = true → pr.kle b c = true → pr.kle a c = true)
+    (total : ∀ a b, pr.kle a b = true ∨ pr.kle b a = true) :
+    (startOrder pr peaks un fi).Pairwise (Kle pr peaks un fi) := by
+  unfold startOrder
+  refine (argsort_pairwise pr.kle trans total _).imp ?_
+  intro j1 j2 h p q hp hq
+  apply h
+  · rw [List.getElem?_map, List.getElem?_zipIdx]
+    have : (peaks.getD fi [])[j1]? = some p := hp
+    rw [this]; simp
+  · rw [List.getElem?_map, List.getElem?_zipIdx]
+    have : (peaks.getD fi [])[j2]? = some q := hq
+    rw [this]; simp
+
+theorem startLoop_order {P α κ} (pr : Params P α κ) (peaks : List (List P)) (fi : Nat) (un0 : List (List Bool)) :
+    ∀ (js : List Nat) (un : List (List Bool)) (acc : List (List Node)),
+      js.Pairwise (Kle pr peaks un0 fi) →
+      (∀ j, isUn un fi j = true → isUn un0 fi j = true) →
+      acc.Pairwise (fun t2 t1 => TrackBefore pr peaks t1 t2) →
+      (∀ t ∈ acc, ∃ a, t.head? = some a ∧ (a.1 < fi ∨ (a.1 = fi ∧ isUn un0 fi a.2 = true ∧
+          (peakAt peaks a).isSome ∧ ∀ j ∈ js, Kle pr peaks un0 fi a.2 j))) →
+      (startLoop pr peaks fi js un acc).2.Pairwise (fun t2 t1 => TrackBefore pr peaks t1 t2) ∧
+      (∀ t ∈ (startLoop pr peaks fi js un acc).2, ∃ a, t.head? = some a ∧ a.1 ≤ fi) := by
+  intro js
+  induction js with
+  | nil =>
+    intro un acc _ _ hp hb
+    refine ⟨hp, ?_⟩
+    intro t ht
+    obtain ⟨a, ha, h⟩ := hb t ht
+    exact ⟨a, ha, by rcases h with h | h <;> omega⟩
+  | cons j js ih =>
+    intro un acc hs hmono hp hb
+    rw [List.pairwise_cons] at hs
+    have hb' : ∀ t ∈ acc, ∃ a, t.head? = some a ∧ (a.1 < fi ∨ (a.1 = fi ∧ isUn un0 fi a.2 = true ∧
+          (peakAt peaks a).isSome ∧ ∀ j' ∈ js, Kle pr peaks un0 fi a.2 j')) := by
+      intro t ht
+      obtain ⟨a, ha, h⟩ := hb t ht
+      refine ⟨a, ha, ?_⟩
+      rcases h with h | ⟨h1, h2, h3, h4⟩
+      · exact Or.inl h
+      · exact Or.inr ⟨h1, h2, h3, fun j' hj' => h4 j' (List.mem_cons_of_mem _ hj')⟩
+    simp only [startLoop]
+    split
+    · rename_i p hpk
+      have hpk' : peakAt peaks (fi, j) = some p := hpk
+      split
+      · rename_i hun
+        obtain ⟨new, h1, _, _, h4, _⟩ :=
+          extend_spec pr peaks (List.range' (fi + 1) (peaks.length - (fi + 1))) (assign un fi j) fi p 0 [] j
+            (fi + 1) _ rfl (by omega) (by omega) (Or.inl rfl) hpk' trivial
+        have hun0 : isUn un0 fi j = true := hmono j hun
+        have hhead : ((extend pr peaks (List.range' (fi + 1) (peaks.length - (fi + 1))) (assign un fi j) fi p 0
+            [(fi, j)]).2.reverse).head? = some (fi, j) := by
+          rw [h1]; simp
+        apply ih
+        · exact hs.2
+        · intro j' h
+          rw [h4] at h
+          simp only [Bool.and_eq_true] at h
+          exact hmono j' (isUn_assign_mono _ _ _ _ _ h.1)
+        · rw [List.pairwise_cons]
+          refine ⟨?_, hp⟩
+          intro t ht
+          obtain ⟨a, ha, h⟩ := hb t ht
+          refine ⟨a, (fi, j), ha, hhead, ?_⟩
+          rcases h with h | ⟨e1, e2, e3, e4⟩
+          · exact Or.inl h
+          · right
+            obtain ⟨a1, a2⟩ := a
+            simp only at e1 e2 e4
+            subst e1
+            obtain ⟨pa, hpa⟩ := Option.isSome_iff_exists.1 e3
+            refine ⟨rfl, pa, p, hpa, hpk', ?_⟩
+            have := e4 j List.mem_cons_self pa p hpa hpk'
+            rw [e2, hun0] at this
+            exact this
+        · intro t ht
+          rcases List.mem_cons.1 ht with rfl | ht
+          · exact ⟨(fi, j), hhead, Or.inr ⟨rfl, hun0, by simp [hpk'], fun j' hj' => hs.1 j' hj'⟩⟩
+          · exact hb' t ht
+      · exact ih un acc hs.2 hmono hp hb'
+    · exact ih un acc hs.2 hmono hp hb'
+
+theorem linkFrom_order {P α κ} (pr : Params P α κ) (peaks : List (List P))
+    (trans : ∀ a b c, pr.kle a b = true → pr.kle b c = true → pr.kle a c = true)
+    (total : ∀ a b, pr.kle a b = true ∨ pr.kle b a = true) :
+    ∀ (fis : List Nat) (un : List (List Bool)) (acc : List (List Node)) (a k : Nat),
+      fis = List.range' a k →
+      acc.Pairwise (fun t2 t1 => TrackBefore pr peaks t1 t2) →
+      (∀ t ∈ acc, ∃ h, t.head? = some h ∧ h.1 < a) →
+      (linkFrom pr peaks fis un acc).2.Pairwise (fun t2 t1 => TrackBefore pr peaks t1 t2) := by
+  intro fis
+  induction fis with
+  | nil => intro un acc a k _ hp _; exact hp
+  | cons fi fis ih =>
+    intro un acc a k hf hp hb
+    cases k with
+    | zero => simp at hf
+    | succ k' =>
+      rw [List.range'_succ] at hf
+      simp only [List.cons.injEq] at hf
+      obtain ⟨rfl, hf⟩ := hf
+      simp only [linkFrom]
+      obtain ⟨s1, s2⟩ := startLoop_order pr peaks fi un (startOrder pr peaks un fi) un acc
+        (startOrder_pairwise pr peaks un fi trans total) (fun _ h => h) hp
+        (fun t ht => by
+          obtain ⟨h, hh, hlt⟩ := hb t ht
+          exact ⟨h, hh, Or.inl hlt⟩)
+      refine ih _ _ (fi + 1) k' hf s1 ?_
+      intro t ht
+      obtain ⟨h, hh, hle⟩ := s2 t ht
+      exact ⟨h, hh, by omega⟩
+
 /-! ### chains: latest-first ↔ time order ↔ "every consecutive pair" -/
 
 /-- chain condition on a list in time order -/
@@ -598,7 +844,7 @@ theorem take_drop_min {β} (l : List β) (i j : Nat) :
   · rw [Nat.min_eq_left h]
   · have hi : l.length ≤ i := by omega
     rw [Nat.min_eq_right hi]
-    rw [List.drop_eq_nil_of_le (by simp <;> omega), List.drop_eq_nil_of_le (by simp <;> omega)]
+    rw [List.drop_eq_nil_of_le (by simp), List.drop_eq_nil_of_le (by simp; omega)]
 
 theorem pySlice_nonneg {β} (l : List β) (i j : Int) (hi : 0 ≤ i) (hj : 0 ≤ j) :
     pySlice l i j = (l.take j.toNat).drop i.toNat := by
